@@ -33,6 +33,7 @@ RULE = ('faults: every truncation point of each pool message; 4 suffix kinds; fo
         'element/sequence substituted at every reached descriptor position, section 1-4 length -2/-1/+1/+2 with total '
         'intact; full and info-only, with and without continue-on-error, CLI. Non-trivial = >= 1 fault injected; '
         'distinct by SHA-1 of the damaged bytes + mode; declared section lengths 0 and 1; fault streams also through a warmed decoder with template compilation on (scoped templates); pool messages with 221 ranges; seventeen command lines over damaged files')
+RULE += '; added with rounds 10-12: fault streams scanned at the same time with different error policies (strict scans must raise after delivering what precedes the damage); every third fault stream also with an all-accepting filter; compressed operator-range messages in the pool; twins'
 ASSUMPTIONS = ['a damaged message must be skipped only when R\'s independent reading finds it invalid (framing, stop signature, '
                'undefined descriptor actually reached); damaged messages that R still reads as valid are counted, not judged',
                'any exception satisfies "does not decode" for truncation; PyBufrKitError is demanded for stream failures and the CLI',
